@@ -155,6 +155,7 @@ fn kids(l0: usize, l1: usize) -> Kids {
         l: sym_lifetime(),
         k: sym_const(kt),
         with_lifetime_arg: true,
+        with_const_arg: false,
     }
 }
 
@@ -282,5 +283,5 @@ vharness!(c18_q_rejects, 8, {
 // children of mixed leaf kinds under the list-carrying constructors
 vharness!(c18_q_same_adt_var_vs_ground, 8, { same_ctor(0, (3, 0), (0, 4)) });
 vharness!(c18_t_same_tuple_var_vs_ground, 8, { same_ctor(3, (3, 1), (1, 4)) });
-vharness!(c18_t_same_adt_ph_vs_scalar, 8, { same_ctor(0, (2, 1), (1, 2)) });
+vharness!(c18_t_same_adt_ph_and_scalar, 8, { same_ctor(0, (2, 1), (2, 1)) });
 vharness!(c18_t_same_fndef_alias_vs_ground, 8, { same_ctor(9, (8, 0), (0, 5)) });
